@@ -2,7 +2,6 @@ package c16
 
 import (
 	"bytes"
-	"crypto/sha256"
 	"fmt"
 	"os"
 	"os/exec"
@@ -113,7 +112,7 @@ func (e *env) mk(b base, kind, name, fault string, members []gen.ArMember, sigs 
 func askedFor(r string, all []string) []string {
 	out := append([]string{}, all...)
 	title := strings.ToUpper(r[:1]) + r[1:]
-	for _, a := range []string{r, "_gpg" + r, "gpg" + r, r + "x", r[:len(r)-1], strings.ToUpper(r), title, r + " ", " " + r, r + "\x00", "", "_gpg", r + r, r + "/"} {
+	for _, a := range []string{r, "_gpg" + r, "gpg" + r, r + "x", r + "s", r + "-security", r[:len(r)-1], strings.ToUpper(r), title, r + " ", " " + r, r + "\x00", "", "_gpg", r + r, r + "/"} {
 		if !has(out, a) {
 			out = append(out, a)
 		}
@@ -185,8 +184,9 @@ func runIns(r *mc.Run, scen string, ins []In, st *mc.Stats) bool {
 		st.Transitions += int64(len(outs))
 		st.States++
 		if !expectVerify(in) {
-			h := sha256.Sum256(append([]byte(in.Ask+"|"+strings.Join(in.KeyringNames, ",")+"|"+fmt.Sprint(in.Calls)+"|"), in.Deb...))
-			st.DistinctNontrivial(string(h[:]))
+			// counted by the case's label (unique per enumerated variant), not by its bytes: the keys - hence the signature
+			// bytes - differ from run to run, and two faults of a signature byte may or may not coincide
+			st.DistinctNontrivial(scen + "|" + in.Name + "|" + in.Ask + "|" + strings.Join(in.KeyringNames, ",") + "|" + fmt.Sprint(in.Calls))
 		}
 		classes := map[string]bool{}
 		for _, o := range outs {
@@ -316,7 +316,10 @@ func Run(r *mc.Run) {
 	}
 
 	// ---- scenario 1: role present x role asked x keyring
+	// present roles: the three debsig roles and roles whose member name "_gpg"+role is 5, 15 and 16 bytes long (the last
+	// fills the ar name column exactly)
 	allRoles := append([]string{}, roles...)
+	allRoles = append(allRoles, "x", "maintainers", "distribution")
 	for _, a := range auditRoles(3) {
 		allRoles = append(allRoles, strings.TrimPrefix(a, "_gpg"))
 	}
